@@ -99,6 +99,11 @@ theorem write_uintvar_eq (v : Int) : write_uintvar v = ofR id (writeUInt v) :=
 theorem write_sintvar_eq (v : Int) (nz : Bool) : write_sintvar v nz = ofR id (writeS v nz) :=
   Transl.Mbxml.write_sintvar_eq v nz
 
+/-- `write_fraction(dec_part, precision)` for natural arguments: the model's `writeFraction` (descending `range`, the septet
+list comprehension, the `while … pop()` loop with fuel `len(septets) + 1`, the flagged list) — it never raises -/
+theorem write_fraction_eq (d p : Nat) : write_fraction (d : Int) (p : Int) = .ok (writeFraction d p) :=
+  Transl.Mbxml.write_fraction_eq d p
+
 /-- the translated writer accepts exactly `0 ≤ v ≤ 2^32 − 1` (`C14.writeU_range`) -/
 theorem transl_write_uintvar_range (v : Int) :
     (∃ bs, write_uintvar v = .ok bs) ↔ 0 ≤ v ∧ v ≤ 2 ^ 32 - 1 := by
